@@ -427,6 +427,10 @@ def parse_verus(rc, out, err, linemap, fnindex, sc):
                 ob["label"] = cl["origin"].get("label", "")
                 ob["fn"] = cl["origin"].get("fn") or func
                 ob["where"] = "%s:%d" % (cl["origin"].get("file"), cl["origin"].get("line", 0))
+                # a clause declared on a trait method fails in the body of an impl: remember that function too
+                bf = next((fn_at(s["file"], s["line"]) for s in spans if s is not cl and fn_at(s["file"], s["line"])), None)
+                if bf and bf != ob["fn"]:
+                    ob["body_fn"] = bf
             else:
                 # a postcondition from vstd (e.g. From::from's from_spec clause) or a lemma's own ensures
                 ob["label"] = "(spec)"
@@ -488,6 +492,9 @@ def load_cones():
     cones = {}
     for k, v in raw.items():
         if k == "groups":
+            continue
+        if k == "second_backend":
+            cones[k] = dict(v)
             continue
         cones[k] = {kk: (expand(vv) if isinstance(vv, list) else vv) for kk, vv in v.items()}
     return cones
@@ -705,6 +712,34 @@ def decide(pid, tier, seed):
             elif r["status"] != "SUCCESSFUL":
                 raise ToolProblem("kani harness %s: %s" % (h, r["status"]))
 
+    # ---- second back end (DESIGN.md §3.6a).  The loop-free header builders listed in cones.toml [second_backend] each have
+    # a COMPLETE Kani contract harness stating the same labelled clause over the full argument domain.  When Verus/Z3
+    # could not re-establish such a builder's obligations (typically a behaviour-preserving reordering of the setter calls
+    # that the bit-vector hint no longer matches), the same query goes to Kani/CBMC: SUCCESSFUL discharges the builder's
+    # obligations on that back end (recorded in the evidence), FAILED is a violation carrying Kani's counterexample.
+    sb = cones.get("second_backend", {})
+    sb_info = {}
+    if failed and sb:
+        by_fn = {}
+        for ob in failed:
+            by_fn.setdefault(my_fn_norm(ob.get("fn") or ""), []).append(ob)
+        for fnn, obs in sorted(by_fn.items()):
+            hs = [h for f2, h in sb.items() if my_fn_norm(f2) == fnn]
+            if not hs:
+                continue
+            import vkani
+            k2 = vkani.run_harnesses(hs, tier)
+            if k2.get("tool_error"):
+                notes.append("second back end for %s not available: %s" % (fnn, k2["tool_error"][:200]))
+                continue
+            r2 = k2["harnesses"].get(hs[0], {})
+            sb_info[fnn] = {"harness": hs[0], "status": r2.get("status"), "time_s": r2.get("time_s"), "verus_obligations": [ob_name(o) for o in obs]}
+            if r2.get("status") == "SUCCESSFUL":
+                failed = [o for o in failed if o not in obs]
+                notes.append("Verus could not re-establish %d obligation(s) of %s; the complete Kani harness %s (same clause, full domain) discharged them" % (len(obs), fnn, hs[0]))
+            elif r2.get("status") == "FAILED":
+                violations.append({"kind": "kani", "harness": hs[0], "detail": r2.get("detail", ""), "failed_checks": r2.get("failed_checks", [])[:5], "values": r2.get("values")})
+
     # ---- canary (vacuity) in the thorough tier
     canary_info = None
     if tier == "thorough":
@@ -754,7 +789,7 @@ def decide(pid, tier, seed):
     if lost_fns:
         soft = list(failed)
     else:
-        soft = [ob for ob in failed if (ob.get("fn") or "").split("::")[0] in drift]
+        soft = [ob for ob in failed if (ob.get("fn") or "").split("::")[0] in drift or (ob.get("body_fn") or "?").split("::")[0] in drift]
     hard = [ob for ob in failed if ob not in soft]
     if (soft or lost_mine) and not hard and not violations:
         import vsearch
@@ -793,6 +828,7 @@ def decide(pid, tier, seed):
             "rewrites": {k: v for k, v in res["report"].items() if k != "contracts"},
             "assumption_scan": res.get("assumption_scan"),
             "canary": canary_info,
+            "second_backend": sb_info or None,
             "known_findings_replayed": {w: wres.get(w, ("missing", ""))[0] for w in wnames},
             "search_crosscheck": cross,
             "notes": notes,
